@@ -6660,6 +6660,15 @@ class SSHServerConnection(SSHConnection):
             self._report_global_response(False)
             return
 
+        # A second listener on the same path would take the path away from
+        # the first one, which would then never be closed
+        if listen_path in self._local_listeners:
+            self.logger.info('Request for UNIX listener on %s denied: '
+                             'already listening', listen_path)
+
+            self._report_global_response(False)
+            return
+
         self.create_task(self._finish_path_forward(listen_path))
 
     async def _finish_path_forward(self, listen_path: str) -> None:
